@@ -124,9 +124,10 @@ type facts struct {
 	PackageMaps                                           [][2]string  // package-level map variables: file, name
 	PackageMapAccess                                      []lockAccess // Struct = var name
 	RegisteredUnits                                       []string
-	RedisFieldWrites                                      [][2]string // function, field  (outside NewRedisStore)
-	SharedConfigWrites                                    [][2]string // function, target expr: assignments through *OIDCConfig / *tls.Config fields outside constructors
-	TLSConfigAliases                                      [][2]string // function, right-hand side: a *tls.Config installed into an http.Transport (TLSClientConfig) - shared with the pool unless cloned
+	RedisFieldWrites                                      [][2]string  // function, field  (outside NewRedisStore)
+	SharedConfigWrites                                    [][2]string  // function, target expr: assignments through *OIDCConfig / *tls.Config fields outside constructors
+	FieldMapWrites                                        []lockAccess // every write to a map reached through a struct field, in any non-test file of internal/: (file, function, target, write|delete, some mutex locked at that statement or constructor)
+	TLSConfigAliases                                      [][2]string  // function, right-hand side: a *tls.Config installed into an http.Transport (TLSClientConfig) - shared with the pool unless cloned
 	TriggerUsesSplitter                                   bool
 }
 
@@ -687,6 +688,58 @@ func main() {
 			})
 		}
 	}
+	// writes to maps that are struct fields, anywhere in internal/ (a cache added to a long-lived object shows up here)
+	_ = filepath.Walk(R("internal"), func(path string, info os.FileInfo, err error) error {
+		if err != nil || info.IsDir() || !strings.HasSuffix(path, ".go") || strings.HasSuffix(path, "_test.go") || strings.Contains(path, "zzverif") || strings.Contains(path, "zz_verif") {
+			return nil
+		}
+		f := parse(path)
+		rel := strings.TrimPrefix(path, R("internal")+"/")
+		for _, d := range f.Decls {
+			fd, ok := d.(*ast.FuncDecl)
+			if !ok || fd.Body == nil {
+				continue
+			}
+			ctor := strings.HasPrefix(fd.Name.Name, "New") || strings.HasPrefix(fd.Name.Name, "new")
+			locked := false
+			ast.Inspect(fd.Body, func(n ast.Node) bool {
+				switch x := n.(type) {
+				case *ast.CallExpr:
+					c := src(x.Fun)
+					if strings.HasSuffix(c, ".Lock") {
+						locked = true
+					}
+					if strings.HasSuffix(c, ".Unlock") {
+						if _, isDefer := n.(*ast.CallExpr); isDefer {
+							// a plain Unlock ends the critical section; a deferred one is visited as DeferStmt below
+						}
+					}
+					if c == "delete" && len(x.Args) == 2 {
+						if _, ok := x.Args[0].(*ast.SelectorExpr); ok {
+							F.FieldMapWrites = append(F.FieldMapWrites, lockAccess{rel, funcName(fd), src(x.Args[0]), "delete", locked || ctor})
+						}
+					}
+				case *ast.ExprStmt:
+					if c, ok := x.X.(*ast.CallExpr); ok && strings.HasSuffix(src(c.Fun), ".Unlock") {
+						locked = false
+						return false
+					}
+				case *ast.DeferStmt:
+					return false // deferred Unlock: the lock is held to the end of the function
+				case *ast.AssignStmt:
+					for _, l := range x.Lhs {
+						if ix, ok := l.(*ast.IndexExpr); ok {
+							if _, ok := ix.X.(*ast.SelectorExpr); ok {
+								F.FieldMapWrites = append(F.FieldMapWrites, lockAccess{rel, funcName(fd), src(ix.X), "write", locked || ctor})
+							}
+						}
+					}
+				}
+				return true
+			})
+		}
+		return nil
+	})
 	// F6: registered units
 	ast.Inspect(mainGo, func(n ast.Node) bool {
 		if ce, ok := n.(*ast.CallExpr); ok && src(ce.Fun) == "g.Register" {
@@ -792,6 +845,8 @@ func lean(F facts) string {
 	w("def redisFieldWrites : List (String × String) := %s", lpairsS(F.RedisFieldWrites))
 	w("def sharedConfigWrites : List (String × String) := %s", lpairsS(F.SharedConfigWrites))
 	w("def tlsConfigAliases : List (String × String) := %s", lpairsS(F.TLSConfigAliases))
+	w("/-- (file, function, target, write|delete, a mutex is held or the function is a constructor) -/")
+	w("def fieldMapWrites : List (String × String × String × String × Bool) :=\n   %s", la(F.FieldMapWrites))
 	w("def triggerUsesSplitter : Bool := %v", F.TriggerUsesSplitter)
 	w("")
 	w("end AuthModel.Generated")
